@@ -174,6 +174,7 @@ def run(prog, rep, tier, cfg):
     # ---- error discipline: no Result produced in these crates is silently discarded
     X.no_dropped_results('K14', 'results-not-discarded', ['fil_actor_multisig'], 'no Result of a call is discarded')
     X.tolerated_failures('K15', 'tolerated-failures', ['fil_actor_multisig'], 'tolerated failures are the reviewed ones')
+    X.write_sites_preserved('K16', 'updates-present', 'fil_actor_multisig', ['State.signers', 'State.num_approvals_threshold', 'State.next_tx_id', 'State.pending_txs', 'State.initial_balance', 'State.start_epoch', 'State.unlock_duration', 'Transaction.approved'], 'state updates do not disappear')
 
 
 
